@@ -24,6 +24,12 @@ impl Drop for CallGuard {
 
 /// Called at the start of every SimpleSL function execution.
 pub fn enter_call() -> CallGuard {
+    // in a simulated execution every function call is a scheduling point too: state that lives
+    // outside cells (statics, memo tables, interior state of Function/Code) is then exposed to
+    // interleavings at call granularity, not only at cell operations
+    if crate::sync::sim_active() && !std::thread::panicking() {
+        shuttle::thread::yield_now();
+    }
     let d = DEPTH.with(|d| {
         d.set(d.get() + 1);
         d.get()
